@@ -5,6 +5,8 @@ import (
 	"encoding/hex"
 	"encoding/json"
 	"errors"
+	"net"
+	"os"
 	"strings"
 	"time"
 	"unicode/utf8"
@@ -127,6 +129,10 @@ type ClientSpec struct {
 	// HoldUs > 0: after the last write the client keeps the connection open for
 	// this long (simulated) before its End action instead of waiting for quiescence.
 	HoldUs int `json:"hold_us,omitempty"`
+	// QuietPoints: how many quiescent points the client waits for before its End
+	// action (0 = 1). A scenario whose handler blocks until the first quiet point
+	// lets its clients stay until the second.
+	QuietPoints int `json:"quiet_points,omitempty"`
 }
 
 func (c *ClientSpec) stream() []byte {
@@ -219,7 +225,20 @@ func (d *testIface) VarlinkDispatch(ctx context.Context, c varlink.Call, methodn
 		case "sleep":
 			sim.Sleep(time.Duration(a.N) * time.Microsecond)
 		case "fail":
-			ret = errors.New("scripted handler failure")
+			// any error ends the connection, whatever its kind
+			switch a.Name {
+			case "deadline":
+				ret = context.DeadlineExceeded
+			case "timeout":
+				ret = &net.OpError{Op: "write", Net: "sim", Err: os.ErrDeadlineExceeded}
+			default:
+				ret = errors.New("scripted handler failure")
+			}
+		case "hold":
+			// the handler blocks until the rest of the world has gone quiet: calls on
+			// OTHER connections must be served meanwhile
+			sim.Await(sim.Cond{Kind: sim.CondQuiescent})
+			sim.Rec("h.hold.released", sp(cid))
 		case "rawread":
 			buf := make([]byte, a.N)
 			n, err := c.Conn.Read(ctx, buf)
@@ -356,6 +375,9 @@ func rawClientTask(idx int, spec ServiceSpec, c ClientSpec) func() {
 			sim.Sleep(time.Duration(c.HoldUs) * time.Microsecond)
 		} else {
 			sim.Await(sim.Cond{Kind: sim.CondQuiescent})
+			for q := 1; q < c.QuietPoints; q++ {
+				sim.Await(sim.Cond{Kind: sim.CondQuiescent})
+			}
 		}
 		if c.End == "abort-quiet" || c.End == "abort" {
 			ep.Abort()
